@@ -52,6 +52,11 @@ hidc.add_argument(
 
 
 def main():
+    # Constants are unbounded integers until the assembler truncates
+    # them, so CPython's limit on int <-> str conversion must not apply.
+    if hasattr(sys, 'set_int_max_str_digits'):
+        sys.set_int_max_str_digits(0)
+
     args = hidc.parse_args()
     if args.word_size % 8 != 0 or args.word_size < 0:
         hidc.error('Word size must be divisible by 8')
@@ -77,8 +82,11 @@ def main():
 
         output = args.output if args.output is not None else args.input + '.s'
         code_gen = CodeGen(env, args.word_size // 8, args.stack_size, args.unchecked)
+        # Render everything before touching the output file, so that
+        # nothing is left behind if rendering fails.
+        lines = list(code_gen.gen_lines())
         with open(output, 'wb') as f:
-            for line in code_gen.gen_lines():
+            for line in lines:
                 f.write(line)
                 f.write(b'\n')
 
